@@ -42,7 +42,13 @@ CONFIGS = {
         flags=["-std=gnu++14", "-O1", "-g", "-fsanitize=fuzzer-no-link,address,undefined",
                "-fno-sanitize=object-size", "-fno-sanitize-recover=all"],
         ld=["-fsanitize=fuzzer,address,undefined", "-fno-sanitize=object-size"]),
+    # line/function coverage of the workload (tools/coverage.py): every configuration except fuzz is mapped to this one when VERIF_COVERAGE is set
+    "cov": dict(cxx="g++", flags=["-std=c++14", "-O0", "-g", "--coverage"], ld=["--coverage"]),
 }
+
+
+def _eff(cfg):
+    return "cov" if (os.environ.get("VERIF_COVERAGE") and cfg != "fuzz") else cfg
 
 
 def _sha(*parts):
@@ -127,6 +133,7 @@ def _compile(cxx, flags, src, out):
 
 def lib_objects(cfg, root=None, extra_defs=()):
     root = root or repo_root()
+    cfg = _eff(cfg)
     c = CONFIGS[cfg]
     flags = c["flags"] + ["-D" + GUARD] + list(extra_defs) + _includes(root)
     hh = headers_hash(root)
@@ -143,6 +150,7 @@ def lib_objects(cfg, root=None, extra_defs=()):
 
 def library(cfg, root=None):
     """Static library built from the working tree; returns (path, key)."""
+    cfg = _eff(cfg)
     objs = lib_objects(cfg, root)
     key = _sha(cfg, *[os.path.basename(o) for o in objs])
     out = os.path.join(CACHE, "lib", key, "libgm2calc.a")
@@ -163,6 +171,7 @@ def library(cfg, root=None):
 def cli(cfg, root=None, main_rename=None):
     """The real gm2calc.x linked from the working tree (or the object with main renamed)."""
     root = root or repo_root()
+    cfg = _eff(cfg)
     c = CONFIGS[cfg]
     lib, lkey = library(cfg, root)
     sp = os.path.join(root, "src", "gm2calc.cpp")
@@ -214,6 +223,7 @@ def harness(cfg, name, root=None, with_mpref=False, extra_flags=(), extra_ld=(),
             threads=False, parts=0):
     """Build harness/<name>.cpp against the library of the working tree; returns the binary path."""
     root = root or repo_root()
+    cfg = _eff(cfg)
     c = CONFIGS[cfg]
     src = os.path.join(VERIF, "harness", name + ".cpp")
     lib, lkey = library(cfg, root)
